@@ -5,6 +5,8 @@ import (
 	"math"
 	"strconv"
 	"strings"
+	"unicode/utf16"
+	"unicode/utf8"
 
 	dtpb "github.com/google/fhir/go/proto/google/fhir/proto/r4/core/datatypes_go_proto"
 	"github.com/shopspring/decimal"
@@ -53,23 +55,61 @@ type String string
 // ParseString parses the input string and replaces FHIRPath
 // escape sequences with their Go-equivalent escape characters.
 func ParseString(input string) (String, error) {
-	escSequences := []string{
-		"\\'", "'",
-		"\\\"", "\"",
-		"\\`", "`",
-		"\\r", "\r",
-		"\\t", "\t",
-		"\\n", "\n",
-		"\\f", "\f",
-		"\\\\", "\\",
-		"\\", "",
-		// TODO PHP-5581
-	}
 	input = strings.TrimPrefix(input, "'")
 	input = strings.TrimSuffix(input, "'")
-	replacer := strings.NewReplacer(escSequences...)
-	escapedString := replacer.Replace(input)
-	return String(escapedString), nil
+	var sb strings.Builder
+	for i := 0; i < len(input); i++ {
+		c := input[i]
+		if c != '\\' {
+			sb.WriteByte(c)
+			continue
+		}
+		if i+1 >= len(input) {
+			// a trailing lone backslash is dropped
+			continue
+		}
+		switch next := input[i+1]; next {
+		case '\'', '"', '`', '\\', '/':
+			sb.WriteByte(next)
+			i++
+		case 'r':
+			sb.WriteByte('\r')
+			i++
+		case 't':
+			sb.WriteByte('\t')
+			i++
+		case 'n':
+			sb.WriteByte('\n')
+			i++
+		case 'f':
+			sb.WriteByte('\f')
+			i++
+		case 'u':
+			// \uXXXX: a UTF-16 code unit in four hexadecimal digits
+			if i+5 < len(input) {
+				if code, err := strconv.ParseUint(input[i+2:i+6], 16, 16); err == nil {
+					r := rune(code)
+					// a surrogate pair \uD83D\uDE00 denotes one character
+					if utf16.IsSurrogate(r) && i+11 < len(input) && input[i+6] == '\\' && input[i+7] == 'u' {
+						if low, err := strconv.ParseUint(input[i+8:i+12], 16, 16); err == nil {
+							if pair := utf16.DecodeRune(r, rune(low)); pair != utf8.RuneError {
+								sb.WriteRune(pair)
+								i += 11
+								continue
+							}
+						}
+					}
+					sb.WriteRune(r)
+					i += 5
+					continue
+				}
+			}
+			// not a \uXXXX sequence: the lone backslash is dropped
+		default:
+			// not an escape sequence: the lone backslash is dropped
+		}
+	}
+	return String(sb.String()), nil
 }
 
 // Equal returns true if the input value is a System String,
